@@ -188,3 +188,78 @@ commb!(c10_bds17_gate_df21, 21, body17);
 // @harness name=c10_bds17_gate_df20 props=C10,C11:thorough tier=thorough cap=2400 mem=24
 // same, DF20
 commb!(c10_bds17_gate_df20, 20, body17);
+
+// ---- register validators / decoders at field level (no row): cheap, small counterexample traces ------
+// @harness props=C10 tier=quick cap=900
+// is_bds_6_0 on every MB field: a result implies all five status bits and values = Doc 9871 decoding;
+// a complete plausible register is recognised
+#[cfg_attr(kani, kani::proof)]
+#[cfg_attr(kani, kani::unwind(40))]
+#[cfg_attr(verif_replay, test)]
+fn c10_field_bds60() {
+    let m = frame28();
+    let o = bds60(&m);
+    let mach = o.mach_field as f64 * 0.004;
+    let got = is_bds_6_0(&m);
+    let plausible = mach <= 1.0 && o.baro_rate >= -6000 && o.baro_rate <= 6000 && o.ivv >= -6000 && o.ivv <= 6000;
+    vcover!(got.is_some() && o.baro_rate < 0, "a descent is recognised");
+    vcover!(got.is_some() && o.ias > 511, "an IAS above 511 kt is recognised");
+    if let Some(r) = &got {
+        vassert!(o.status_ok, "C10: BDS 6,0 recognised although a status bit is clear");
+        vassert!(r.indicated_airspeed == Some(o.ias), "C10: IAS is not the Doc 9871 decoding (1 kt LSB)");
+        vassert!(ofeq(r.mach_number, Some(mach)), "C10: Mach is not the Doc 9871 decoding (0.004 LSB)");
+        vassert!(r.magnetic_heading.is_some() && trunc_ok(o.hdg_num, 512, r.magnetic_heading.unwrap_or(0) as i64), "C10: magnetic heading is not the Doc 9871 decoding");
+        vassert!(r.barometric_altitude_rate.is_none() || r.barometric_altitude_rate == Some(o.baro_rate), "C10: barometric altitude rate is not the Doc 9871 decoding");
+        vassert!(r.internal_vertical_velocity.is_none() || r.internal_vertical_velocity == Some(o.ivv), "C10: inertial vertical velocity is not the Doc 9871 decoding");
+    }
+    if o.status_ok && o.fields_nonzero && plausible {
+        vassert!(got.is_some(), "C10: a complete, plausible BDS 6,0 register is not recognised");
+    }
+}
+
+// @harness props=C10 tier=quick cap=900
+// is_bds_5_0 on every MB field
+#[cfg_attr(kani, kani::proof)]
+#[cfg_attr(kani, kani::unwind(40))]
+#[cfg_attr(verif_replay, test)]
+fn c10_field_bds50() {
+    let m = frame28();
+    let o = bds50(&m);
+    let got = is_bds_5_0(&m);
+    let plausible = o.roll_num >= -50 * 256 && o.roll_num <= 50 * 256 && o.gs <= 600 && o.tas <= 500 && (o.gs as i64 - o.tas as i64).abs() < 200;
+    vcover!(got.is_some() && o.rate_num < 0, "a left turn is recognised");
+    vcover!(got.is_some() && o.roll_num < 0, "a negative roll is recognised");
+    if let Some(r) = &got {
+        vassert!(o.status_ok, "C10: BDS 5,0 recognised although a status bit is clear");
+        vassert!(r.ground_speed == Some(o.gs) && r.true_airspeed == Some(o.tas), "C10: ground speed / TAS are not the Doc 9871 decoding (2 kt LSB)");
+        vassert!(r.roll_angle.is_some() && trunc_ok(o.roll_num, 256, r.roll_angle.unwrap_or(0) as i64), "C10: roll angle is not the Doc 9871 decoding");
+        vassert!(r.track_angle.is_some() && trunc_ok(o.track_num, 512, r.track_angle.unwrap_or(0) as i64), "C10: true track is not the Doc 9871 decoding");
+        vassert!(r.track_angle_rate.is_some() && trunc_ok(o.rate_num, 32, r.track_angle_rate.unwrap_or(0) as i64), "C10: track angle rate is not the Doc 9871 decoding");
+    }
+    if o.status_ok && o.fields_nonzero && plausible {
+        vassert!(got.is_some(), "C10: a complete, plausible BDS 5,0 register is not recognised");
+    }
+}
+
+// @harness props=C10 tier=quick cap=900
+// is_bds_4_0 on every MB field
+#[cfg_attr(kani, kani::proof)]
+#[cfg_attr(kani, kani::unwind(40))]
+#[cfg_attr(verif_replay, test)]
+fn c10_field_bds40() {
+    let m = frame28();
+    let o = bds40(&m);
+    let got = is_bds_4_0(&m);
+    vcover!(got.is_some(), "a BDS 4,0 register is recognised");
+    vcover!(got.is_none() && o.status_ok && !o.reserved_ok, "reserved bits reject a register");
+    if let Some(r) = &got {
+        vassert!(o.status_ok, "C10: BDS 4,0 recognised although a status bit is clear");
+        vassert!(o.reserved_ok, "C10: BDS 4,0 recognised although reserved bits (MB 40-47, 52-53) are set");
+        vassert!(r.mcp_selected_altitude == Some(o.mcp_alt), "C10: MCP selected altitude is not the Doc 9871 decoding (16 ft LSB)");
+        vassert!(r.fms_selected_altitude == Some(o.fms_alt), "C10: FMS selected altitude is not the Doc 9871 decoding (16 ft LSB)");
+        vassert!(r.barometric_pressure_setting == Some(o.baro), "C10: pressure setting is not 800 + field/10 mb");
+    }
+    if o.status_ok && o.reserved_ok && o.mcp_field != 0 && o.fms_field != 0 && o.baro_field != 0 {
+        vassert!(got.is_some(), "C10: a complete BDS 4,0 register is not recognised");
+    }
+}
